@@ -810,6 +810,8 @@ where
         for i in target_order.iter().copied() {
             let t = targets[i].as_ref();
             if t.is_empty() {
+                #[cfg(feature = "verif")]
+                crate::verif::point("run.bad_target", "");
                 log_err!("cannot build the empty target (\"\").\n");
                 result.set(Err(RedoErrorKind::InvalidTarget(t.into()).into()));
                 break;
@@ -825,12 +827,19 @@ where
             wait_for(token_future, job_futures.as_mut())
                 .await
                 .map_err(RedoError::opaque_error)?;
+            #[cfg(feature = "verif")]
+            crate::verif::point("run.token", "1");
             let errored = {
                 let r = result.replace(Ok(()));
                 let errored = r.is_err();
                 result.set(r);
                 errored
             };
+            #[cfg(feature = "verif")]
+            crate::verif::point(
+            "run.check",
+            &format!("1 {} {}", errored as u8, ps_ref.borrow().env().keep_going as u8),
+        );
             if errored && !ps_ref.borrow().env().keep_going {
                 break;
             }
@@ -869,6 +878,8 @@ where
                     // FIXME: separate obtaining the fid from creating the File.
                     // FIXME: maybe integrate locking into the File object?
                     f.refresh(&mut ptx)?;
+                    #[cfg(feature = "verif")]
+                    let verif_fid = f.id();
                     let job = BuildJob {
                         t: t.into(),
                         sf: f,
@@ -880,6 +891,8 @@ where
                     let result = &result;
                     job_futures.push(Box::pin(async move {
                         let rv = job.await;
+                        #[cfg(feature = "verif")]
+                        crate::verif::point("run.job_result", &format!("{} {}", verif_fid, rv));
                         if rv != EXIT_SUCCESS {
                             result.set(Err(RedoError::new(format!("{:?}: exit code {}", t, rv))));
                         }
@@ -901,12 +914,19 @@ where
         let jobs_done_future = server.wait_all();
         pin_mut!(jobs_done_future);
         wait_for(jobs_done_future, job_futures.as_mut()).await?;
+        #[cfg(feature = "verif")]
+        crate::verif::point("run.waitall", "");
         let errored = {
             let r = result.replace(Ok(()));
             let errored = r.is_err();
             result.set(r);
             errored
         };
+        #[cfg(feature = "verif")]
+        crate::verif::point(
+            "run.check",
+            &format!("2 {} {}", errored as u8, ps_ref.borrow().env().keep_going as u8),
+        );
         if errored && !ps_ref.borrow().env().keep_going {
             break;
         }
@@ -914,6 +934,8 @@ where
             // wait_all() may have given up even our own token (the top-level
             // self-test does); the steps below release and use it.
             server.ensure_token_or_cheat(t.as_str(), &mut cheat).await?;
+            #[cfg(feature = "verif")]
+            crate::verif::point("run.token", &format!("2 {}", fid));
             // TODO(soon): check_sane
             let mut lock = ps_ref.borrow().new_lock(fid);
             let mut backoff = Duration::from_millis(100);
@@ -940,12 +962,16 @@ where
                 // give up our personal token while we wait for the lock to
                 // be released; but we should never run ensure_token() while
                 // holding a lock, or we could cause deadlocks.
+                #[cfg(feature = "verif")]
+                crate::verif::point("run.release_mine", &format!("{}", fid));
                 server.release_mine()?;
                 lock.wait_lock(LockType::Exclusive)?;
                 // now t is definitely free, so we get to decide whether
                 // to build it.
                 lock.unlock()?;
                 server.ensure_token_or_cheat(t.as_str(), &mut cheat).await?;
+                #[cfg(feature = "verif")]
+                crate::verif::point("run.token", &format!("3 {}", fid));
                 lock.try_lock()?;
             }
             logs::meta(
@@ -960,6 +986,8 @@ where
                 ptx.set_drop_behavior(DropBehavior::Commit);
                 let file = state::File::from_name(&mut ptx, t, true)?;
                 if file.is_failed(ptx.state().env()) {
+                    #[cfg(feature = "verif")]
+                    crate::verif::point("run.failed_elsewhere", &format!("{}", fid));
                     result.set(Err(RedoErrorKind::FailedInAnotherThread {
                         target: t.to_redo_path_buf(),
                     }
@@ -978,6 +1006,8 @@ where
                     let result = &result;
                     job_futures.push(Box::pin(async move {
                         let rv = job.await;
+                        #[cfg(feature = "verif")]
+                        crate::verif::point("run.job_result", &format!("{} {}", fid, rv));
                         if rv != EXIT_SUCCESS {
                             result.set(Err(RedoError::new(format!("{:?}: exit code {}", t, rv))));
                         }
@@ -994,6 +1024,8 @@ where
     // Jobs that are still running own their target's lock and have not recorded
     // their result yet: wait for them on every path, also after an error.
     job_futures.fold((), |_, _| future::ready(())).await;
+    #[cfg(feature = "verif")]
+    crate::verif::point("run.drained", if loops_result.is_ok() { "ok" } else { "err" });
     loops_result?;
     #[cfg(feature = "verif")]
     {
